@@ -27,7 +27,7 @@ MUST_HIT = {
     "C08": ["C08.r1", "C08.r2", "C08.r3"],
     "C11": ["C11.r1", "C01.r1", "C02.r1", "C04.r4"],
     "C14": ["C14.r1", "C14.r2", "C14.r4", "C01.r1", "C02.r1"],
-    "C20": ["C20.r1", "C20.r2", "C01.r1", "C04.r4"],
+    "C20": ["C20.r1", "C20.r2", "C20.r3", "C01.r1", "C04.r4"],
 }
 
 # which monitor rules decide which property (a rule named Cxx.* always decides Cxx)
@@ -87,9 +87,10 @@ def model_error(r):
         raise ToolError(f"TLC run {r['name']} failed: {r['error']} (see {r['out']})")
 
 
-def two_arenas_cfg(max_ops):
+def two_arenas_cfg(max_ops, menu="base"):
     consts = {"Obj": "{o1, o2}", "NoObj": "NoObj", "MaxKids": 2, "MaxWeak": 1, "Kinds": '{"N"}', "Budgets": "{1}",
-              "Grans": '{"P1"}', "MaxHandles": 0, "MaxOps": max_ops, "Emit": '"states"'}
+              "Grans": '{"P1"}', "MaxHandles": 2 if menu == "dyn" else 0, "MaxOps": max_ops, "Emit": '"states"',
+              "Menu": f'"{menu}"'}
     return cfg_text(spec="Spec", constants=consts, invariants=["Invs", "EmitStates"], properties=["C20_Frame"],
                     constraints=["Bounded"], symmetry="Perms", view="vw")
 
@@ -159,6 +160,9 @@ def core_models(tier, d):
                                        max_ops=6 if quick else 8), 2, None, 3000),
         # (5) two arenas on one thread (C20): interleavings of a reduced menu
         ("two_arenas", "TwoArenas", two_arenas_cfg(4 if quick else 5), None, 12000 if quick else 200000, 3000),
+        # (5a) one arena after the other on the same thread, dynamic-root handles of the first surviving it: with the
+        #      harness allocator in reuse mode the second arena is handed the first one's addresses
+        ("two_arenas_dyn", "TwoArenas", two_arenas_cfg(8 if quick else 10, "dyn"), None, 20000 if quick else 200000, 3000),
     ]
     if not quick:
         # (6) N2 complete: one behaviour per distinct state (state cover)
@@ -334,7 +338,7 @@ def check_core(prop, tier):
         viols += [v for v in m["viol"] if v["rule"] == "crash" and (v.get("extra") or {}).get("crash", {}).get("how") in ("with-history", "unconfirmed")
                   and v not in viols]
         # each arena's C01-C05 guarantees hold regardless of what is done to the other
-        viols += [v for v in m["viol"] if v["prop"] in ("C01", "C02", "C03", "C04", "C05") and v["source"].startswith("two_arenas")]
+        viols += [v for v in m["viol"] if v["prop"] in ("C01", "C02", "C03", "C04", "C05", "C14") and v["source"].startswith("two_arenas")]
     if prop == "C11":
         # "after the unwind is caught the arena continues to satisfy C01-C05": the same rules, on
         # the executions that contain injected faults
